@@ -269,4 +269,64 @@ PROPS = {
             "measured in the release profile (allocation behaviour does not depend on overflow checks)",
         ],
     },
+
+    "C11": {
+        "level": "fault_enumeration",
+        "profiles": ["chk"],
+        "death_is_violation": True,
+        "exhaustive": {"quick": False, "thorough": True},
+        "min_evals": {"quick": 20000, "thorough": 50000},
+        "rule": ("the fault is a truncation point. For every file of the valid seed corpus (canned samples, reference-encoded movies of every codec with "
+                 "movie header first or last, 64-bit and size-0 mdat, metadata, emsg, edit lists; fragmented single streams; media segments opened against "
+                 "their initialisation segment; muxer outputs) EVERY cut position 0..len is enumerated (files above 20 kB: every byte of the first and last "
+                 "4 kB and every 97th byte in between in the quick tier, all bytes in thorough). The prefix is opened with its own length under a stream "
+                 "op budget; if it opens, every sample that the complete file yields is read: the result must be an error or absence, or equal in bytes, "
+                 "start time, duration and composition offset to the complete file's sample (the library's own answer on the complete file is the "
+                 "reference). Panic, budget overrun (hang) or a differing Ok(Some) is a violation. distinct_nontrivial = distinct (file, outcome class) "
+                 "with the prefix opened: all samples equal / some equal some failing / none readable."),
+        "assumptions": [
+            "sample counts may shrink (fewer complete fragments): a missing sample (Ok(None)) or an error is accepted, only wrong data is not",
+            "sync flags are not part of 'bytes and timing' (and depend on the fragment count for fragmented tracks) - DESIGN 8.3",
+        ],
+    },
+
+    "C10": {
+        "level": "fault_enumeration",
+        "profiles": ["chk"],
+        "death_is_violation": True,
+        "exhaustive": {"quick": True, "thorough": True},
+        "min_evals": {"quick": 10000, "thorough": 50000},
+        "rule": ("for each explored reader file (the valid seed corpus: 30 files quick, all ~50 thorough) a fault-free run counts the K stream calls "
+                 "(read / seek) of the open call (read_header, or read_fragment_header for media segments) and of each read_sample call (first 6 samples "
+                 "of every track); then the run is repeated once for EVERY k < K with a single injected error at call k. For each explored muxer history "
+                 "(30 quick / 200 thorough) the K write / seek calls from write_start to write_end are counted and every k < K is repeated with an "
+                 "injected error and with a write that returns Ok(0). Oracle: the library call in progress returns Error::IoError - not Ok, not another "
+                 "error, no panic - and earlier muxer calls returned what the fault-free run returned. Short transfers: each file is re-read with a "
+                 "stream that transfers 1 byte per call, a random 1-7 bytes, and reports Interrupted on a third / half of the calls, and the complete "
+                 "observation transcript (all accessors, every sample's offset, timing and bytes) must be identical; each history is re-muxed with the "
+                 "same stream behaviours on the write side and the output must be byte-identical. Enumeration of fault indices is complete per subject. "
+                 "distinct_nontrivial = distinct (library call, stream op kind hit, fault kind, outcome) tuples observed."),
+        "assumptions": [
+            "exactly one fault per run; the stream keeps working after it (the statement speaks of any single failing call)",
+            "Interrupted is injected on read and write calls only (seek has no retry contract in std::io)",
+        ],
+    },
+
+    "C15": {
+        "level": "exploration",
+        "profiles": ["chk"],
+        "death_is_violation": True,
+        "min_evals": {"quick": 400, "thorough": 4000},
+        "rule": ("(a) for every file of the seed corpus, and for damaged variants of it (truncated media data, byte-level havoc) so that failing calls "
+                 "occur, one long-lived reader receives a random schedule of 200-2000 calls - read_sample, sample_offset, sample_count, track accessors, "
+                 "movie accessors and metadata; track ids valid, 0 and max+1; sample ids 0, 1..N, N+1.., 2^32-1; with repetition - and every result is "
+                 "compared with the result of the same single call on a fresh reader (samples by all fields and a hash of the bytes, errors by variant "
+                 "and message); (b) 400 (thorough 4000) random muxing histories are muxed twice in one process and once more in a separate process "
+                 "(different per-process hash seeds) and the outputs compared; (c) every subject is opened twice and ftyp / moov / moofs / emsgs and the "
+                 "per-track trak / trafs / moof offsets compared for equality. distinct_nontrivial = distinct (previous call kind and outcome -> next call "
+                 "kind and outcome) transitions observed in the schedules plus distinct muxing history shapes."),
+        "assumptions": [
+            "the fresh-reader answer is the reference (metamorphic); correctness of the answer itself is C03/C09's business",
+        ],
+    },
 }
